@@ -2,7 +2,7 @@
 From Coq Require Import List ZArith NArith String Ascii Bool Lia.
 Import ListNotations.
 From Verif Require Import Common.Base Common.NegoText Model.OfferShape Model.OfferTrackDetails
-  Proofs.NegoText.
+  Proofs.NegoText Proofs.OfferShape.
 Open Scope string_scope.
 
 Definition u32 (n : N) : Prop := (n < 4294967296)%N.
@@ -245,4 +245,409 @@ Proof.
     cbn [td_loop td_step ts_tracks].
     change (String.eqb "msid" "ssrc-group") with false. change (String.eqb "msid" "msid") with true. cbv iota.
     rewrite step_msid_line by auto. cbn [flow_repair_of fold_left snd fst]. rewrite !N.eqb_refl. reflexivity.
+Qed.
+
+(* ====================================================================== *)
+(* any number of encodings (the simulcast envelope)                        *)
+(* ====================================================================== *)
+
+(* every track read so far lists exactly one ssrc, and it is not n *)
+Definition tfresh (n : N) (T : list tdetail) : Prop :=
+  Forall (fun x => exists s, td_ssrcs x = [s] /\ s <> n) T.
+(* no repair flow read so far mentions n, as repair or as base *)
+Definition ffresh (n : N) (l : list (N * N)) : Prop :=
+  Forall (fun x => fst x <> n /\ snd x <> n) l.
+
+Lemma ffresh_fst : forall n l, ffresh n l -> Forall (fun x => fst x <> n) l.
+Proof. intros n l H. eapply Forall_impl; [|exact H]. cbn. tauto. Qed.
+Lemma ffresh_snd : forall n l, ffresh n l -> Forall (fun x => snd x <> n) l.
+Proof. intros n l H. eapply Forall_impl; [|exact H]. cbn. tauto. Qed.
+
+Lemma existsb_fresh : forall n x,
+  (exists s, td_ssrcs x = [s] /\ s <> n) -> existsb (N.eqb n) (td_ssrcs x) = false.
+Proof.
+  intros n x [s [-> H]]. cbn. destruct (N.eqb n s) eqn:E; [apply N.eqb_eq in E; congruence|]. reflexivity.
+Qed.
+
+Lemma filter_track_fresh : forall n T, tfresh n T -> filter_track_with_ssrc T n = T.
+Proof.
+  unfold filter_track_with_ssrc. induction 1 as [|x T Hx _ IH]; cbn [filter]; auto.
+  rewrite (existsb_fresh _ _ Hx). cbn [negb]. now rewrite IH.
+Qed.
+
+Lemma mark_repair_fresh : forall set n T, tfresh n T -> mark_repair set n T = Ok T.
+Proof.
+  induction 1 as [|x T [s [Hs Hn]] _ IH]; cbn [mark_repair]; auto.
+  rewrite Hs, IH. destruct (N.eqb s n) eqn:E; [apply N.eqb_eq in E; congruence|]. reflexivity.
+Qed.
+
+Lemma flow_set_fresh : forall r b l,
+  Forall (fun x => fst x <> r) l -> flow_set r b l = (l ++ [(r, b)])%list.
+Proof.
+  unfold flow_set. intros r b l H. f_equal. induction H as [|x l Hx _ IH]; cbn [filter]; auto.
+  destruct (N.eqb (fst x) r) eqn:E; [apply N.eqb_eq in E; congruence|]. cbn [negb]. now rewrite IH.
+Qed.
+
+Lemma flow_has_fresh : forall n l, Forall (fun x => fst x <> n) l -> flow_has n l = false.
+Proof.
+  unfold flow_has. induction 1 as [|x l Hx _ IH]; cbn [existsb]; auto.
+  destruct (N.eqb (fst x) n) eqn:E; [apply N.eqb_eq in E; congruence|]. exact IH.
+Qed.
+
+Lemma flow_has_snoc : forall r b l, flow_has r (l ++ [(r, b)]) = true.
+Proof.
+  intros r b l. unfold flow_has. rewrite existsb_app. cbn. rewrite N.eqb_refl. now rewrite orb_true_r.
+Qed.
+
+Lemma flow_repair_fresh : forall n l c, Forall (fun x => snd x <> n) l -> flow_repair_of n l c = c.
+Proof.
+  unfold flow_repair_of. intros n l c H. revert c. induction H as [|x l Hx _ IH]; intro c; cbn [fold_left]; auto.
+  destruct (N.eqb (snd x) n) eqn:E; [apply N.eqb_eq in E; congruence|]. apply IH.
+Qed.
+
+Lemma flow_repair_app : forall n l l' c,
+  flow_repair_of n (l ++ l') c = flow_repair_of n l' (flow_repair_of n l c).
+Proof. intros. unfold flow_repair_of. now rewrite fold_left_app. Qed.
+
+Lemma last_fresh : forall n T i c, tfresh n T -> last_with_ssrc n T i c = c.
+Proof.
+  intros n T i c H. revert i c. induction H as [|x T Hx _ IH]; intros i c; cbn [last_with_ssrc]; auto.
+  rewrite (existsb_fresh _ _ Hx). apply IH.
+Qed.
+
+Lemma last_snoc : forall n T t i c, tfresh n T -> td_ssrcs t = [n] ->
+  last_with_ssrc n (T ++ [t]) i c = Some (i + List.length T)%nat.
+Proof.
+  intros n T t i c H Ht. revert i c.
+  induction H as [|x T Hx _ IH]; intros i c; cbn [app last_with_ssrc List.length].
+  - rewrite Ht. cbn [existsb]. rewrite N.eqb_refl. cbn [orb]. f_equal. lia.
+  - rewrite (existsb_fresh _ _ Hx). rewrite IH. f_equal. lia.
+Qed.
+
+Lemma nth_snoc {A} : forall (T : list A) t, nth_error (T ++ [t]) (List.length T) = Some t.
+Proof. induction T; cbn; auto. Qed.
+Lemma update_snoc {A} : forall (T : list A) t f,
+  update_nth (List.length T) f (T ++ [t]) = (T ++ [f t])%list.
+Proof. induction T; cbn; intros; auto. now rewrite IHT. Qed.
+
+(* a FID / FEC-FR line whose two ssrcs are new to the tracks read so far *)
+Lemma step_group_fresh : forall (rtx : bool) st a b,
+  u32 a -> u32 b -> tfresh b (ts_tracks st) -> tfresh a (ts_tracks st) ->
+  Forall (fun x => fst x <> b) (if rtx then ts_rtx st else ts_fec st) ->
+  step_group st ((if rtx then "FID" else "FEC-FR") ++ " " ++ itoaN a ++ " " ++ itoaN b)
+  = Ok {| ts_tracks := ts_tracks st;
+          ts_rtx := if rtx then (ts_rtx st ++ [(b, a)])%list else ts_rtx st;
+          ts_fec := if rtx then ts_fec st else (ts_fec st ++ [(b, a)])%list;
+          ts_stream := ts_stream st; ts_track := ts_track st |}.
+Proof.
+  intros rtx st a b Ha Hb Tb Ta Fb. unfold step_group. destruct rtx.
+  - rewrite (split_group "FID") by reflexivity.
+    change (String.eqb "FID" "FID") with true. cbv iota.
+    unfold step_group_with. rewrite !parse_u32_itoaN by assumption.
+    rewrite filter_track_fresh by exact Tb. rewrite mark_repair_fresh by exact Ta.
+    rewrite flow_set_fresh by exact Fb. reflexivity.
+  - rewrite (split_group "FEC-FR") by reflexivity.
+    change (String.eqb "FEC-FR" "FID") with false. change (String.eqb "FEC-FR" "FEC-FR") with true. cbv iota.
+    unfold step_group_with. rewrite !parse_u32_itoaN by assumption.
+    rewrite filter_track_fresh by exact Tb. rewrite mark_repair_fresh by exact Ta.
+    rewrite flow_set_fresh by exact Fb. reflexivity.
+Qed.
+
+(* the four lines of a primary source whose ssrc is new: one track is appended *)
+Lemma source_read_gen : forall mid k st n stream track,
+  u32 n -> no_space stream = true -> no_space track = true ->
+  Forall (fun x => fst x <> n) (ts_rtx st) -> Forall (fun x => fst x <> n) (ts_fec st) ->
+  tfresh n (ts_tracks st) ->
+  td_loop mid k st (media_source n stream track)
+  = Ok {| ts_tracks := ts_tracks st ++
+                       [{| td_mid := mid; td_kind := k; td_stream := stream; td_id := track;
+                           td_ssrcs := [n];
+                           td_rtx := flow_repair_of n (ts_rtx st) None;
+                           td_fec := flow_repair_of n (ts_fec st) None;
+                           td_rids := [] |}];
+          ts_rtx := ts_rtx st; ts_fec := ts_fec st; ts_stream := stream; ts_track := track |}.
+Proof.
+  intros mid k st n stream track Hn Hs Ht Hr0 Hf0 Hfresh.
+  pose proof (flow_has_fresh _ _ Hr0) as Hr. pose proof (flow_has_fresh _ _ Hf0) as Hf.
+  unfold media_source. cbn [td_loop td_step].
+  change (String.eqb "ssrc" "ssrc-group") with false. change (String.eqb "ssrc" "msid") with false.
+  change (String.eqb "ssrc" "ssrc") with true. cbv iota.
+  change (itoaN n ++ " cname:" ++ stream) with (itoaN n ++ String " " ("cname:" ++ stream)).
+  change (itoaN n ++ " msid:" ++ stream ++ " " ++ track)
+    with (itoaN n ++ String " " ("msid:" ++ stream ++ String " " track)).
+  change (itoaN n ++ " mslabel:" ++ stream) with (itoaN n ++ String " " ("mslabel:" ++ stream)).
+  change (itoaN n ++ " label:" ++ track) with (itoaN n ++ String " " ("label:" ++ track)).
+  (* line 1: cname -- a new track *)
+  unfold step_ssrc at 1. rewrite split_source2 by auto. rewrite parse_u32_itoaN by exact Hn.
+  rewrite Hr, Hf. rewrite last_fresh by exact Hfresh. cbv iota.
+  (* line 2: msid *)
+  unfold step_ssrc at 1. cbn [ts_rtx ts_fec ts_tracks ts_stream ts_track].
+  rewrite split_source3 by auto. rewrite parse_u32_itoaN by exact Hn. rewrite Hr, Hf.
+  rewrite strip_prefix_app.
+  rewrite last_snoc by (auto). cbn [Nat.add]. rewrite nth_snoc, update_snoc. cbn [td_rtx td_fec td_rids].
+  (* line 3: mslabel *)
+  unfold step_ssrc at 1. cbn [ts_rtx ts_fec ts_tracks ts_stream ts_track].
+  rewrite split_source2 by auto. rewrite parse_u32_itoaN by exact Hn. rewrite Hr, Hf.
+  rewrite last_snoc by (auto). cbn [Nat.add]. rewrite nth_snoc, update_snoc. cbn [td_rtx td_fec td_rids].
+  (* line 4: label *)
+  unfold step_ssrc at 1. cbn [ts_rtx ts_fec ts_tracks ts_stream ts_track].
+  rewrite split_source2 by auto. rewrite parse_u32_itoaN by exact Hn. rewrite Hr, Hf.
+  rewrite last_snoc by (auto). cbn [Nat.add]. rewrite nth_snoc, update_snoc. cbn [td_rtx td_fec td_rids].
+  rewrite !flow_repair_idem. reflexivity.
+Qed.
+
+(* ---------- one encoding's lines ---------- *)
+
+Definition nzl (n : N) : list N := if N.eqb n 0 then [] else [n].
+(* the ssrc values one encoding announces *)
+Definition enc_vals (e : enc) : list N := e_ssrc e :: (nzl (e_rtx e) ++ nzl (e_fec e))%list.
+(* the track trackDetailsFromSDP's switch builds for one encoding *)
+Definition det (mid : string) (k : kind) (stream track : string) (e : enc) : tdetail :=
+  {| td_mid := mid; td_kind := k; td_stream := stream; td_id := track;
+     td_ssrcs := [e_ssrc e]; td_rtx := nz (e_rtx e); td_fec := nz (e_fec e); td_rids := [] |}.
+Definition rflow (e : enc) : list (N * N) := if N.eqb (e_rtx e) 0 then [] else [(e_rtx e, e_ssrc e)].
+Definition fflow (e : enc) : list (N * N) := if N.eqb (e_fec e) 0 then [] else [(e_fec e, e_ssrc e)].
+
+Definition st_fresh (v : N) (st : tdstate) : Prop :=
+  tfresh v (ts_tracks st) /\ ffresh v (ts_rtx st) /\ ffresh v (ts_fec st).
+
+Lemma msid_step : forall mid k st stream track,
+  no_space stream = true -> no_space track = true ->
+  td_loop mid k st [("msid", stream ++ " " ++ track)]
+  = Ok {| ts_tracks := ts_tracks st; ts_rtx := ts_rtx st; ts_fec := ts_fec st;
+          ts_stream := stream; ts_track := track |}.
+Proof.
+  intros. cbn [td_loop td_step].
+  change (String.eqb "msid" "ssrc-group") with false. change (String.eqb "msid" "msid") with true. cbv iota.
+  now rewrite step_msid_line by auto.
+Qed.
+
+Lemma Forall_snoc {A} (P : A -> Prop) : forall l x, Forall P l -> P x -> Forall P (l ++ [x]).
+Proof. intros. apply Forall_app. split; auto. Qed.
+
+Lemma enc_step : forall mid k stream track st e,
+  no_space stream = true -> no_space track = true ->
+  Forall u32 (enc_vals e) -> NoDup (enc_vals e) ->
+  (forall v, In v (enc_vals e) -> st_fresh v st) ->
+  td_loop mid k st (enc_attrs stream track e)
+  = Ok {| ts_tracks := ts_tracks st ++ [det mid k stream track e];
+          ts_rtx := ts_rtx st ++ rflow e; ts_fec := ts_fec st ++ fflow e;
+          ts_stream := stream; ts_track := track |}.
+Proof.
+  intros mid k stream track st e Hs Ht Hu Hnd Hfr.
+  unfold enc_attrs, enc_vals, det, rflow, fflow, nz, nzl in *.
+  destruct (Hfr (e_ssrc e) (or_introl eq_refl)) as [Ts [Rs Fs]].
+  assert (Us : u32 (e_ssrc e)) by (inversion Hu; auto).
+  destruct (N.eqb (e_rtx e) 0) eqn:Er; destruct (N.eqb (e_fec e) 0) eqn:Ef; cbn [app] in *.
+  - (* no RTX, no FEC *)
+    rewrite !app_nil_r. rewrite td_loop_app.
+    rewrite source_read_gen by (auto using ffresh_fst).
+    rewrite msid_step by auto. cbn [ts_tracks ts_rtx ts_fec].
+    rewrite (flow_repair_fresh _ (ts_rtx st)), (flow_repair_fresh _ (ts_fec st)) by (auto using ffresh_snd). reflexivity.
+  - (* FEC only *)
+    destruct (Hfr (e_fec e)) as [Tf [Rf Ff]]; [cbn; auto|].
+    assert (Uf : u32 (e_fec e)) by (inversion Hu as [|? ? _ H2]; inversion H2; auto).
+    assert (D : e_fec e <> e_ssrc e) by (inversion Hnd as [|? ? H1 _]; intro X; apply H1; rewrite X; cbn; auto).
+    cbn [td_loop td_step]. change (String.eqb "ssrc-group" "ssrc-group") with true. cbv iota.
+    change ("FEC-FR " ++ itoaN (e_ssrc e) ++ " " ++ itoaN (e_fec e))
+      with ((if false then "FID" else "FEC-FR") ++ " " ++ itoaN (e_ssrc e) ++ " " ++ itoaN (e_fec e)).
+    rewrite step_group_fresh by (auto using ffresh_fst). cbv iota.
+    rewrite !td_loop_app.
+    rewrite source_read_gen; cbn [ts_tracks ts_rtx ts_fec]; auto using ffresh_fst.
+    2:{ apply Forall_snoc; auto using ffresh_fst. }
+    rewrite td_loop_app, source_skipped by (cbn [ts_rtx ts_fec]; auto; rewrite flow_has_snoc; apply orb_true_r).
+    cbv iota. rewrite msid_step by auto. cbn [ts_tracks ts_rtx ts_fec].
+    rewrite flow_repair_app. rewrite (flow_repair_fresh _ (ts_rtx st)), (flow_repair_fresh _ (ts_fec st)) by (auto using ffresh_snd).
+    cbn [flow_repair_of fold_left snd fst]. rewrite N.eqb_refl. rewrite ?app_nil_r. reflexivity.
+  - (* RTX only *)
+    destruct (Hfr (e_rtx e)) as [Tr [Rr Fr]]; [cbn; auto|].
+    assert (Ur : u32 (e_rtx e)) by (inversion Hu as [|? ? _ H2]; inversion H2; auto).
+    assert (D : e_rtx e <> e_ssrc e) by (inversion Hnd as [|? ? H1 _]; intro X; apply H1; rewrite X; cbn; auto).
+    cbn [td_loop td_step]. change (String.eqb "ssrc-group" "ssrc-group") with true. cbv iota.
+    change ("FID " ++ itoaN (e_ssrc e) ++ " " ++ itoaN (e_rtx e))
+      with ((if true then "FID" else "FEC-FR") ++ " " ++ itoaN (e_ssrc e) ++ " " ++ itoaN (e_rtx e)).
+    rewrite step_group_fresh by (auto using ffresh_fst). cbv iota.
+    rewrite !td_loop_app.
+    rewrite source_read_gen; cbn [ts_tracks ts_rtx ts_fec]; auto using ffresh_fst.
+    2:{ apply Forall_snoc; auto using ffresh_fst. }
+    rewrite td_loop_app, source_skipped by (cbn [ts_rtx ts_fec]; auto; rewrite flow_has_snoc; reflexivity).
+    cbv iota. rewrite msid_step by auto. cbn [ts_tracks ts_rtx ts_fec].
+    rewrite flow_repair_app. rewrite (flow_repair_fresh _ (ts_rtx st)), (flow_repair_fresh _ (ts_fec st)) by (auto using ffresh_snd).
+    cbn [flow_repair_of fold_left snd fst]. rewrite N.eqb_refl. rewrite ?app_nil_r. reflexivity.
+  - (* RTX and FEC *)
+    destruct (Hfr (e_rtx e)) as [Tr [Rr Fr]]; [cbn; auto|].
+    destruct (Hfr (e_fec e)) as [Tf [Rf Ff]]; [cbn; auto|].
+    assert (Ur : u32 (e_rtx e)) by (inversion Hu as [|? ? _ H2]; inversion H2; auto).
+    assert (Uf : u32 (e_fec e)) by (inversion Hu as [|? ? _ H2]; inversion H2 as [|? ? _ H3]; inversion H3; auto).
+    assert (D1 : e_rtx e <> e_ssrc e) by (inversion Hnd as [|? ? H1 _]; intro X; apply H1; rewrite X; cbn; auto).
+    assert (D2 : e_fec e <> e_ssrc e) by (inversion Hnd as [|? ? H1 _]; intro X; apply H1; rewrite X; cbn; auto).
+    cbn [td_loop td_step]. change (String.eqb "ssrc-group" "ssrc-group") with true. cbv iota.
+    change ("FID " ++ itoaN (e_ssrc e) ++ " " ++ itoaN (e_rtx e))
+      with ((if true then "FID" else "FEC-FR") ++ " " ++ itoaN (e_ssrc e) ++ " " ++ itoaN (e_rtx e)).
+    rewrite step_group_fresh by (auto using ffresh_fst). cbv iota.
+    cbn [td_loop td_step]. change (String.eqb "ssrc-group" "ssrc-group") with true. cbv iota.
+    change ("FEC-FR " ++ itoaN (e_ssrc e) ++ " " ++ itoaN (e_fec e))
+      with ((if false then "FID" else "FEC-FR") ++ " " ++ itoaN (e_ssrc e) ++ " " ++ itoaN (e_fec e)).
+    rewrite step_group_fresh by (cbn [ts_tracks ts_rtx ts_fec]; auto using ffresh_fst). cbv iota.
+    cbn [ts_tracks ts_rtx ts_fec ts_stream ts_track].
+    rewrite !td_loop_app.
+    rewrite source_read_gen; cbn [ts_tracks ts_rtx ts_fec]; auto using ffresh_fst.
+    2:{ apply Forall_snoc; auto using ffresh_fst. }
+    2:{ apply Forall_snoc; auto using ffresh_fst. }
+    rewrite td_loop_app, source_skipped by (cbn [ts_rtx ts_fec]; auto; rewrite flow_has_snoc; reflexivity).
+    cbv iota.
+    rewrite td_loop_app, source_skipped by (cbn [ts_rtx ts_fec]; auto; rewrite flow_has_snoc; apply orb_true_r).
+    cbv iota. rewrite msid_step by auto. cbn [ts_tracks ts_rtx ts_fec].
+    rewrite !flow_repair_app. rewrite (flow_repair_fresh _ (ts_rtx st)), (flow_repair_fresh _ (ts_fec st)) by (auto using ffresh_snd).
+    cbn [flow_repair_of fold_left snd fst]. rewrite !N.eqb_refl. reflexivity.
+Qed.
+
+(* ---------- the loop over all encodings ---------- *)
+
+Lemma NoDup_app_disjoint {A} : forall (a b : list A) x, NoDup (a ++ b) -> In x a -> In x b -> False.
+Proof.
+  induction a as [|y a IH]; intros b x H Ha Hb; [contradiction|].
+  cbn in H. inversion H as [|? ? Hn Hr]; subst. destruct Ha as [->|Ha].
+  - apply Hn. apply in_or_app. now right.
+  - eapply IH; eauto.
+Qed.
+
+Lemma NoDup_app_l {A} : forall (a b : list A), NoDup (a ++ b) -> NoDup a.
+Proof.
+  induction a as [|y a IH]; intros b H; [constructor|].
+  cbn in H. inversion H as [|? ? Hn Hr]; subst. constructor; eauto.
+  intro Hc. apply Hn. apply in_or_app. now left.
+Qed.
+Lemma NoDup_app_r {A} : forall (a b : list A), NoDup (a ++ b) -> NoDup b.
+Proof. induction a as [|y a IH]; intros b H; auto. cbn in H. inversion H; subst. auto. Qed.
+
+Lemma in_rflow : forall e x, In x (rflow e) -> In (fst x) (enc_vals e) /\ In (snd x) (enc_vals e).
+Proof.
+  intros e x H. unfold rflow, enc_vals, nzl in *. destruct (N.eqb (e_rtx e) 0); [contradiction|].
+  destruct H as [<-|[]]. cbn. auto.
+Qed.
+Lemma in_fflow : forall e x, In x (fflow e) -> In (fst x) (enc_vals e) /\ In (snd x) (enc_vals e).
+Proof.
+  intros e x H. unfold fflow, enc_vals, nzl in *. destruct (N.eqb (e_fec e) 0); [contradiction|].
+  destruct H as [<-|[]]. cbn [fst snd]. split; [right; apply in_or_app; right; cbn; auto|left; reflexivity].
+Qed.
+
+Lemma encs_loop : forall mid k stream track encs st,
+  no_space stream = true -> no_space track = true ->
+  Forall u32 (flat_map enc_vals encs) -> NoDup (flat_map enc_vals encs) ->
+  (forall v, In v (flat_map enc_vals encs) -> st_fresh v st) ->
+  td_loop mid k st (flat_map (enc_attrs stream track) encs)
+  = Ok {| ts_tracks := ts_tracks st ++ map (det mid k stream track) encs;
+          ts_rtx := ts_rtx st ++ flat_map rflow encs;
+          ts_fec := ts_fec st ++ flat_map fflow encs;
+          ts_stream := match encs with [] => ts_stream st | _ => stream end;
+          ts_track := match encs with [] => ts_track st | _ => track end |}.
+Proof.
+  intros mid k stream track encs. induction encs as [|e rest IH]; intros st Hs Ht Hu Hnd Hfr.
+  - cbn. rewrite !app_nil_r. destruct st; reflexivity.
+  - cbn [flat_map] in *. rewrite td_loop_app.
+    apply Forall_app in Hu. destruct Hu as [Hu1 Hu2].
+    rewrite enc_step; auto.
+    2:{ eapply NoDup_app_l; eauto. }
+    2:{ intros v Hv. apply Hfr. apply in_or_app. now left. }
+    rewrite IH; auto.
+    + cbn [ts_tracks ts_rtx ts_fec ts_stream ts_track map]. rewrite <- !app_assoc. cbn [app].
+      destruct rest; reflexivity.
+    + eapply NoDup_app_r; eauto.
+    + intros v Hv. destruct (Hfr v) as [T [R F]]; [apply in_or_app; now right|].
+      assert (Hne : forall w, In w (enc_vals e) -> w <> v).
+      { intros w Hw X. subst w. eapply NoDup_app_disjoint; eauto. }
+      unfold st_fresh. cbn [ts_tracks ts_rtx ts_fec]. split; [|split].
+      * apply Forall_snoc; auto. exists (e_ssrc e). split; [reflexivity|]. apply Hne. cbn. auto.
+      * apply Forall_app. split; auto. apply Forall_forall. intros x Hx.
+        destruct (in_rflow _ _ Hx). split; apply Hne; auto.
+      * apply Forall_app. split; auto. apply Forall_forall. intros x Hx.
+        destruct (in_fflow _ _ Hx). split; apply Hne; auto.
+Qed.
+
+(* rid / simulcast lines do not touch the switch's state *)
+Lemma td_loop_other : forall mid k l st,
+  Forall (fun a => fst a = "rid" \/ fst a = "simulcast") l -> td_loop mid k st l = Ok st.
+Proof.
+  induction l as [|a l IH]; intros st H; [reflexivity|].
+  inversion H as [|? ? Ha Hl]; subst. cbn [td_loop]. destruct a as [key v]. cbn [fst] in Ha.
+  assert (E : td_step mid k st (key, v) = Ok st) by (destruct Ha; subst key; reflexivity).
+  rewrite E. now apply IH.
+Qed.
+
+Lemma rid_ids_app : forall a b, rid_ids (a ++ b) = (rid_ids a ++ rid_ids b)%list.
+Proof. intros. unfold rid_ids. now rewrite flat_map_app. Qed.
+
+Lemma rid_ids_none : forall l,
+  Forall (fun a => In (fst a) ["ssrc-group"; "ssrc"; "msid"]) l -> rid_ids l = [].
+Proof.
+  induction 1 as [|a l Ha _ IH]; [reflexivity|].
+  unfold rid_ids in *. cbn [flat_map]. rewrite IH.
+  destruct Ha as [E|[E|[E|[]]]]; rewrite <- E; reflexivity.
+Qed.
+
+Lemma rid_ids_rid_lines : forall encs,
+  Forall (fun e => no_space (enc_rid e) = true) encs ->
+  rid_ids (map (fun e => ("rid", enc_rid e ++ " send")) encs) = map enc_rid encs.
+Proof.
+  induction 1 as [|e l He _ IH]; [reflexivity|].
+  unfold rid_ids in *. cbn [map flat_map fst snd]. change (String.eqb "rid" "rid") with true. cbv iota.
+  change (enc_rid e ++ " send") with (enc_rid e ++ String " " "send").
+  rewrite split_sp_app by exact He. cbn [app]. now rewrite IH.
+Qed.
+
+(* the switch's result for a sender's section, before the rid step: one track
+   per encoding, in order, with the announced primary / RTX / FEC ssrcs *)
+Lemma sources_of_sender : forall mid k tr e0 rest neg sent stopped,
+  e_track e0 = Some tr ->
+  no_space (k_id tr) = true -> no_space (k_stream tr) = true ->
+  Forall u32 (flat_map enc_vals (e0 :: rest)) -> NoDup (flat_map enc_vals (e0 :: rest)) ->
+  exists st,
+    td_loop mid k td_init
+      (sender_attrs (Some {| sn_encs := e0 :: rest; sn_negotiated := neg; sn_sent := sent; sn_stopped := stopped |}))
+    = Ok st
+    /\ ts_tracks st = map (det mid k (k_stream tr) (k_id tr)) (e0 :: rest)
+    /\ ts_stream st = k_stream tr /\ ts_track st = k_id tr.
+Proof.
+  intros mid k tr e0 rest neg sent stopped Htr Hid Hst Hu Hnd.
+  unfold sender_attrs, sender_track. cbn [sn_encs]. rewrite Htr.
+  rewrite td_loop_app. rewrite encs_loop; auto.
+  2:{ intros v _. repeat split; constructor. }
+  rewrite td_loop_other.
+  - eexists. split; [reflexivity|]. cbn. auto.
+  - destruct (Nat.ltb 1 (List.length (e0 :: rest))); [|constructor].
+    apply Forall_app. split.
+    + apply Forall_forall. intros x Hx. apply in_map_iff in Hx. destruct Hx as [e [<- _]]. cbn. auto.
+    + constructor; [cbn; auto|constructor].
+Qed.
+
+(* trackDetailsFromSDP's result for that section: with one encoding the track
+   itself; with several (rid lines present, ids non-empty) a single simulcast
+   track carrying the rids in order and no ssrc *)
+Lemma roundtrip_encodings : forall mid k tr e0 rest neg sent stopped,
+  e_track e0 = Some tr ->
+  no_space (k_id tr) = true -> no_space (k_stream tr) = true ->
+  Forall (fun e => no_space (enc_rid e) = true) (e0 :: rest) ->
+  Forall u32 (flat_map enc_vals (e0 :: rest)) -> NoDup (flat_map enc_vals (e0 :: rest)) ->
+  track_details_media mid k
+    (sender_attrs (Some {| sn_encs := e0 :: rest; sn_negotiated := neg; sn_sent := sent; sn_stopped := stopped |}))
+  = Ok (if Nat.ltb 1 (List.length (e0 :: rest))
+           && (negb (String.eqb (k_id tr) "") && negb (String.eqb (k_stream tr) ""))
+        then [{| td_mid := mid; td_kind := k; td_stream := k_stream tr; td_id := k_id tr;
+                 td_ssrcs := []; td_rtx := None; td_fec := None; td_rids := map enc_rid (e0 :: rest) |}]
+        else map (det mid k (k_stream tr) (k_id tr)) (e0 :: rest)).
+Proof.
+  intros mid k tr e0 rest neg sent stopped Htr Hid Hst Hrid Hu Hnd.
+  destruct (sources_of_sender mid k tr e0 rest neg sent stopped Htr Hid Hst Hu Hnd) as [st [L [T [S1 S2]]]].
+  unfold track_details_media. rewrite L.
+  unfold sender_attrs, sender_track. cbn [sn_encs]. rewrite Htr.
+  rewrite rid_ids_app. rewrite rid_ids_none.
+  2:{ apply Forall_flat_map. apply Forall_forall. intros e _. apply (enc_attrs_by_key (k_stream tr) (k_id tr) e). }
+  cbn [app]. destruct rest as [|e1 rest].
+  - cbn. rewrite T. reflexivity.
+  - change (Nat.ltb 1 (List.length (e0 :: e1 :: rest))) with true. cbv iota.
+    rewrite rid_ids_app, rid_ids_rid_lines by exact Hrid.
+    change (rid_ids [("simulcast", "send " ++ join_with ";" (map enc_rid (e0 :: e1 :: rest)))]) with (@nil string).
+    rewrite app_nil_r. cbn [map app andb]. rewrite S1, S2, T.
+    destruct (negb (String.eqb (k_id tr) "") && negb (String.eqb (k_stream tr) "")); reflexivity.
 Qed.
